@@ -90,5 +90,38 @@ Proof.
     rewrite app_length. replace (length (enc ops) + length rest - length rest) with (length (enc ops)) by lia.
     now rewrite firstn_app, firstn_all, Nat.sub_diag, firstn_O, app_nil_r.
 Qed.
+(* the executable summary of the reader on a cut file: how many frames lie wholly before the cut, and how the iteration ends *)
+Fixpoint prefix_count (lens : list nat) (k : nat) : nat :=
+  match lens with [] => 0 | l :: r => if l <=? k then S (prefix_count r (k - l)) else 0 end.
+Fixpoint cut_status (lens : list nat) (k : nat) : status :=
+  match lens with
+  | [] => Eof
+  | l :: r => if l <=? k then cut_status r (k - l) else if k =? 0 then Eof else Trunc
+  end.
+
+Theorem C19_truncation_exact frames : Forall (Forall wf_inst) frames -> forall k fuel, length frames < fuel ->
+  read_all fuel (firstn k (file frames)) =
+  (map enc (firstn (prefix_count (map (fun f => length (enc f)) frames) k) frames),
+   cut_status (map (fun f => length (enc f)) frames) k).
+Proof.
+  induction 1 as [|ops frames Hops _ IH]; intros k fuel Hf.
+  - unfold file; simpl. rewrite firstn_nil. destruct fuel; [simpl in Hf; lia|]. reflexivity.
+  - destruct fuel as [|fuel]; [simpl in Hf; lia|]. simpl in Hf.
+    unfold file in *. cbn [map concat prefix_count cut_status]. rewrite firstn_app.
+    destruct (length (enc ops) <=? k) eqn:E.
+    + apply Nat.leb_le in E. rewrite (firstn_all2 (enc ops)) by lia.
+      set (rest := firstn (k - length (enc ops)) (concat (map enc frames))).
+      assert (Hne : enc ops ++ rest <> []) by (destruct (enc ops) eqn:X; [now apply enc_nonempty in X|discriminate]).
+      rewrite (read_all_step fuel _ Hne).
+      rewrite (scan_complete classify stopb stop_class ops Hops rest) by (rewrite app_length; pose proof (enc_ops_length ops); lia).
+      unfold rest. rewrite (IH (k - length (enc ops)) fuel) by lia. cbn zeta. cbn [firstn map]. f_equal. f_equal.
+      fold rest. rewrite app_length. replace (length (enc ops) + length rest - length rest) with (length (enc ops)) by lia.
+      now rewrite firstn_app, firstn_all, Nat.sub_diag, firstn_O, app_nil_r.
+    + apply Nat.leb_gt in E. replace (k - length (enc ops)) with 0 by lia. rewrite firstn_O, app_nil_r. cbn [firstn map].
+      destruct k as [|k]; [reflexivity|]. cbn [Nat.eqb].
+      assert (Hne : firstn (S k) (enc ops) <> []) by (destruct (enc ops) eqn:X; [now apply enc_nonempty in X|discriminate]).
+      rewrite (read_all_step fuel _ Hne).
+      now rewrite (C19_prefix_free classify stopb ops Hops (S k) _ E).
+Qed.
 End Reader.
 Print Assumptions C19_truncation.
